@@ -43,7 +43,7 @@ class Cx(object):
     def analysed_summary(self):
         out = {}
         for name, p in self._ports.items():
-            out[name] = {'parser': p.parser, 'modules': {m: {'file': p.files[m], 'sha256': p.sha[m]} for m in p.modules}, 'functions': len(p.funcs), 'classes': len(p.classes), 'functions_with_locals_restored_to_reference_spelling': getattr(p, 'renamed', [])}
+            out[name] = {'parser': p.parser, 'modules': {m: {'file': p.files[m], 'sha256': p.sha[m]} for m in p.modules}, 'functions': len(p.funcs), 'classes': len(p.classes), 'functions_with_locals_restored_to_reference_spelling': getattr(p, 'renamed', []), 'calls_of_new_helpers_inlined': getattr(p, 'inlined', [])}
         for name, (sks, errs) in self._sk.items():
             out.setdefault(name, {})['skeleton_configurations'] = [s.name for s in sks]
         return out
